@@ -4,14 +4,18 @@ package api
 
 import (
 	"bytes"
+	"context"
 	"encoding/json"
 	"errors"
 	"fmt"
+	"github.com/gotid/god/api/handler"
 	"google.golang.org/grpc/codes"
 	"google.golang.org/grpc/status"
 	"io"
 	"net/http"
 	"net/http/httptest"
+	"net/http/httptrace"
+	"net/textproto"
 	"strconv"
 	"sync"
 	"sync/atomic"
@@ -47,6 +51,8 @@ type verifC02Case struct {
 	RTimeoutMs int64 `json:"rtimeout_ms"` // WithTimeout on the route, 0 = option absent
 	Verbose    bool  `json:"verbose"`     // Config.Verbose: DetailedLogHandler instead of LogHandler
 	HoldMs     int64 `json:"hold_ms"`     // the handler is kept parked in front of action K for that long (0: never parked)
+	Full       bool  `json:"full"`        // every built-in middleware active (name, max conns, max bytes, shedding)
+	Ref        bool  `json:"ref"`         // also run RecoverHandler(bare handler) on a plain net/http server and report what it delivers
 	K          int   `json:"k"`
 	// e2em: several requests through ONE engine chain / route
 	MReqs     []verifC02MReq   `json:"mreqs"`
@@ -517,6 +523,56 @@ func verifC02RLE(b []byte) [][2]int {
 	return out
 }
 
+type verifC02Result struct {
+	status int
+	hdr    []verifC02Hdr
+	body   []byte
+	info   []int
+	err    error
+}
+
+// verifC02Post sends one POST and reports the final response plus the informational (1xx) responses before it.
+func verifC02Post(url string) verifC02Result {
+	var mu sync.Mutex
+	info := []int{}
+	trace := &httptrace.ClientTrace{Got1xxResponse: func(code int, _ textproto.MIMEHeader) error {
+		mu.Lock()
+		info = append(info, code)
+		mu.Unlock()
+		return nil
+	}}
+	req, err := http.NewRequest(http.MethodPost, url, bytes.NewReader(nil))
+	if err != nil {
+		return verifC02Result{err: err}
+	}
+	req = req.WithContext(httptrace.WithClientTrace(context.Background(), trace))
+	resp, err := http.DefaultClient.Do(req)
+	if err != nil {
+		return verifC02Result{err: err}
+	}
+	defer resp.Body.Close()
+	b, err := io.ReadAll(resp.Body)
+	mu.Lock()
+	defer mu.Unlock()
+	return verifC02Result{status: resp.StatusCode, hdr: verifC02Snap(resp.Header), body: b, info: info, err: err}
+}
+
+// verifC02Reference: what a plain net/http server delivers for RecoverHandler(the bare scripted handler).
+func verifC02Reference(acts []verifC02Action) map[string]any {
+	bare := http.HandlerFunc(func(w http.ResponseWriter, r *http.Request) {
+		for _, a := range acts {
+			verifC02Do(w, a)
+		}
+	})
+	srv := httptest.NewServer(handler.RecoverHandler(bare))
+	defer srv.Close()
+	res := verifC02Post(srv.URL + "/verif")
+	if res.err != nil {
+		return map[string]any{"client_error": res.err.Error()}
+	}
+	return map[string]any{"status": res.status, "h": res.hdr, "rle": verifC02RLE(res.body), "len": len(res.body), "info": res.info}
+}
+
 // verifC02RunConfig: one request through the chain engine.bindRoute builds for the given combination of server-wide
 // timeout, route timeout and log handler. The scripted handler may be kept parked in front of action K for HoldMs:
 // whether the client is answered at a deadline or only after the release is the observation. valid=false: a timer
@@ -561,7 +617,13 @@ func verifC02RunConfig(c *verifC02Case, k int) (obs map[string]any, valid bool) 
 			check()
 		}
 	}
-	ng := newEngine(Config{Timeout: c.GTimeoutMs, Verbose: c.Verbose})
+	cfg := Config{Timeout: c.GTimeoutMs, Verbose: c.Verbose}
+	if c.Full {
+		// nothing is switched off: tracing name, MaxConns latch, MaxBytes gate, adaptive shedder (threshold 100%: installed,
+		// never shedding a lone request); log, prometheus, breaker, metric, gunzip handlers are unconditional
+		cfg.Name, cfg.MaxConns, cfg.MaxBytes, cfg.CpuThreshold = "verif-c02", 100, 1<<20, 1000
+	}
+	ng := newEngine(cfg)
 	fr := featuredRoutes{routes: []Route{{Method: http.MethodPost, Path: "/verif", Handler: h}}}
 	if c.RTimeoutMs > 0 {
 		WithTimeout(time.Duration(c.RTimeoutMs) * time.Millisecond)(&fr) // the route option, as AddRoutes applies it
@@ -574,23 +636,9 @@ func verifC02RunConfig(c *verifC02Case, k int) (obs map[string]any, valid bool) 
 	srv := httptest.NewServer(rt)
 	defer srv.Close()
 
-	type result struct {
-		status int
-		hdr    []verifC02Hdr
-		body   []byte
-		err    error
-	}
+	type result = verifC02Result
 	resc := make(chan result, 1)
-	go func() {
-		resp, err := http.Post(srv.URL+"/verif", "application/octet-stream", bytes.NewReader(nil))
-		if err != nil {
-			resc <- result{err: err}
-			return
-		}
-		defer resp.Body.Close()
-		b, err := io.ReadAll(resp.Body)
-		resc <- result{status: resp.StatusCode, hdr: verifC02Snap(resp.Header), body: b, err: err}
-	}()
+	go func() { resc <- verifC02Post(srv.URL + "/verif") }()
 
 	valid = true
 	var res result
@@ -631,11 +679,15 @@ func verifC02RunConfig(c *verifC02Case, k int) (obs map[string]any, valid bool) 
 		valid = false // a deadline passed before the unparked handler had finished
 	}
 	mu.Unlock()
-	if res.err != nil {
-		return map[string]any{"client_error": res.err.Error(), "trace": tr}, valid
+	var ref map[string]any
+	if c.Ref {
+		ref = verifC02Reference(c.Acts)
 	}
-	return map[string]any{"resp": map[string]any{"status": res.status, "h": res.hdr, "rle": verifC02RLE(res.body), "len": len(res.body)},
-		"trace": tr, "prompt": prompt, "parked": wasParked}, valid
+	if res.err != nil {
+		return map[string]any{"client_error": res.err.Error(), "trace": tr, "ref": ref}, valid
+	}
+	return map[string]any{"resp": map[string]any{"status": res.status, "h": res.hdr, "rle": verifC02RLE(res.body), "len": len(res.body), "info": res.info},
+		"trace": tr, "prompt": prompt, "parked": wasParked, "ref": ref}, valid
 }
 
 func TestVerifDriverC02(t *testing.T) {
